@@ -2223,28 +2223,36 @@ impl Formatter {
   }
 
   pub fn pattern_array(&mut self, node: &PatternArray) -> String {
-    let mut parts: Vec<String> = vec![];
+    // Element patterns are separated by a comma: `[1 * 1]` would read back as the product 1 * 1
+    let mut head: Vec<String> = vec![];
     for p in &node.prefix {
-      parts.push(self.pattern(p));
+      head.push(self.pattern(p));
     }
+    let mut tail: Vec<String> = vec![];
+    let mut sigil: Option<&str> = None;
     if let Some(spread) = &node.spread {
-      match spread.kind {
-        PatternArraySpreadKind::Spread => {
-          parts.push("…".to_string());
-          if let Some(binding) = &spread.binding {
-            parts.push(self.pattern(binding));
-          }
-        }
-        PatternArraySpreadKind::Rest => {
-          parts.push("|".to_string());
-          if let Some(binding) = &spread.binding {
-            parts.push(self.pattern(binding));
-          }
-        }
+      sigil = Some(match spread.kind {
+        PatternArraySpreadKind::Spread => "…",
+        PatternArraySpreadKind::Rest => "|",
+      });
+      if let Some(binding) = &spread.binding {
+        tail.push(self.pattern(binding));
       }
     }
     for p in &node.suffix {
-      parts.push(self.pattern(p));
+      tail.push(self.pattern(p));
+    }
+    let mut parts: Vec<String> = vec![];
+    match sigil {
+      Some(s) => {
+        if !head.is_empty() { parts.push(head.join(", ")); }
+        parts.push(s.to_string());
+        if !tail.is_empty() { parts.push(tail.join(", ")); }
+      }
+      None => {
+        head.extend(tail);
+        if !head.is_empty() { parts.push(head.join(", ")); }
+      }
     }
     format!("[{}]", parts.join(" "))
   }
